@@ -1356,6 +1356,10 @@ class Message(ABC):
                 current[value.key] = value.value
             elif isinstance(current, list) and not isinstance(value, list):
                 current.append(value)
+            elif isinstance(current, list) and meta.proto_type in PACKED_TYPES:
+                # A packed repeated field may arrive in several chunks (also
+                # mixed with unpacked elements), which all have to be kept.
+                current.extend(value)
             else:
                 setattr(self, field_name, value)
 
